@@ -3,7 +3,7 @@
    ProcessRequest closures), model/PushHandler.v (all workers and handlers); monitor: model/IngestSpec.v smon_step. *)
 From Coq Require Import List NArith ZArith Bool.
 From Qryn Require Import model.Ingest model.PushHandler model.IngestSpec model.IngestFresh proofs.IngestBase proofs.IngestAck
-  proofs.IngestSpecProofs proofs.IngestPromises.
+  proofs.IngestSpecProofs proofs.IngestPromises model.IngestSched model.PushConfirm proofs.IngestShapes.
 Import ListNotations.
 
 (* If every submitted request is the table of its rows, then for every configuration and every interleaving each
@@ -116,3 +116,29 @@ Proof.
   specialize (H Hin). vm_compute in H. discriminate.
 Qed.
 Print Assumptions distinct_rows_need_fresh_ids_refuted.
+
+(* The process-death conditions of the insert path that are index-out-of-range panics, and which request shapes reach
+   them.  ProcessRequest panics exactly for a time-series request whose MLabels is shorter than its MDate
+   (Labels.Append(MLabels[i]) for i over MDate) ... *)
+Theorem process_request_panics_iff : forall k r,
+  eff k r = None <->
+  k = KSeries /\ (length (nth 3 (fit (ncols KSeries) r) []) < length (nth 1 (fit (ncols KSeries) r) []))%nat.
+Proof. exact IngestShapes.process_request_panics_iff. Qed.
+Print Assumptions process_request_panics_iff.
+
+(* ... ConfirmSeries (MFingerprint[i], MType[i] for i over MDate) exactly when one of those is shorter than MDate ... *)
+Theorem confirm_series_panics_iff : forall r,
+  confirm_keys r = None <-> (length (nth 2 r []) < length (nth 1 r []))%nat \/ (length (nth 0 r []) < length (nth 1 r []))%nat.
+Proof. exact IngestShapes.confirm_series_panics_iff. Qed.
+Print Assumptions confirm_series_panics_iff.
+
+(* ... and a table -- the hypothesis of blocks_good -- reaches neither: ProcessRequest appends it as it is, ConfirmSeries
+   reads one key per row.  So "submitted requests are tables" (parser_output_wf, C03/C05/C06/C16 at column level) also
+   discharges the no-panic hypothesis of C01's liveness theorems. *)
+Theorem tables_reach_no_panic : forall k r, wf_reqb k r = true ->
+  eff k r = Some r /\ (k = KSeries -> confirm_keys r = Some (rids_of r)) /\ opt_some (eff k r) = true.
+Proof.
+  intros k r H. destruct (IngestShapes.tables_reach_no_panic k r H) as [A B]. split; [assumption|]. split; [assumption|].
+  exact (wf_requests_are_live k r H).
+Qed.
+Print Assumptions tables_reach_no_panic.
